@@ -722,7 +722,7 @@ impl<'a> Checker<'a> {
             r.method = Some(MethodRef::Static(m.func));
             return Ok(r);
         }
-        let msg = format!("{}.{} undefined (type {} has no field or method {})", "x", name, self.ts(t), name);
+        let msg = format!("selector .{} undefined (type {} has no field or method {})", name, self.ts(t), name);
         Ok(self.err_at(spos, "unknown-field", &msg))
     }
 
